@@ -18,6 +18,9 @@
 //  6. forced family (race.go): the route table changes (R1 closed or kept, protected R2 registered for the
 //     same host / longer location / user) while an accepted request waits in frps for a work connection
 //     of R1: R2's backend must never see it.
+//  7. reload family (reload.go): a real frpc is reloaded from plugin credentials A to B (static_file,
+//     http_proxy, socks5); fresh connections and connections opened before the reload must not be served
+//     with the replaced credentials.
 package main
 
 import (
@@ -48,6 +51,7 @@ type spec struct {
 	Web    *webSpec    `json:"web,omitempty"`
 	Seq    *seqSpec    `json:"sequence,omitempty"`
 	Race   *raceSpec   `json:"route_change_while_dialing,omitempty"`
+	Reload *reloadSpec `json:"plugin_reload,omitempty"`
 }
 
 // pending: what every tag of the run carried, for the end-of-run sweep over the backend logs
@@ -148,6 +152,8 @@ func main() {
 			runSeq(c, s.Seq)
 		case s.Race != nil:
 			runRace(c, s.Race)
+		case s.Reload != nil:
+			runReload(c, s.Reload)
 		}
 	})
 
@@ -206,6 +212,8 @@ func surfaceOf(s spec) string {
 		return "sequence/" + s.Seq.Surface
 	case s.Race != nil:
 		return "vhost-http/route-change-while-dialing"
+	case s.Reload != nil:
+		return "plugin-reload/" + s.Reload.Kind
 	}
 	return "?"
 }
@@ -231,6 +239,7 @@ func generate() []spec {
 	out = append(out, genWeb(rng)...)
 	out = append(out, genSeq(run.RandFor("generate-sequences", 0))...)
 	out = append(out, genRace(run.RandFor("generate-race", 0))...)
+	out = append(out, genReload(run.RandFor("generate-reload", 0))...)
 	// interleave the surfaces (the ones with a 200 ms failure delay overlap with the fast ones)
 	rng.Shuffle(len(out), func(i, j int) { out[i], out[j] = out[j], out[i] })
 	return out
